@@ -291,6 +291,8 @@ def _observers():
         ("copy-superpose", lambda t: fresh_copy(t).superpose(t, 0)),
         ("save-h5", save("h5")), ("save-pdb", save("pdb")), ("save-xtc", save("xtc")), ("save-dcd", save("dcd")),
         ("save-nc", save("nc")), ("save-gro", save("gro")), ("save-xyz", save("xyz")), ("save-trr", save("trr")),
+        ("save-mdcrd", save("mdcrd")), ("save-lammpstrj", save("lammpstrj")), ("save-rst7", save("rst7")), ("save-ncrst", save("ncrst")),
+        ("save-dtr", save("dtr")), ("save-pdb.gz", save("pdb.gz")), ("save-xyz.gz", save("xyz.gz")),
     ]
     return obs
 
